@@ -496,7 +496,8 @@ def run(ctx):
     # (host-key probes, group-exchange probes) the audit makes to the same peer, each of which sends the same lines again
     import peers as P, runner
     hdr_cases = []
-    for i, pre in enumerate([[b'Welcome to host'], [b'line one  ', b'', b'   ', b'line two'], [b'NOTICE: authorised use only', b'SSH-is-not-a-banner', b'x'], []]):
+    for i, pre in enumerate([[b'Welcome to host'], [b'line one  ', b'', b'   ', b'line two'], [b'NOTICE: authorised use only', b'SSH-is-not-a-banner', b'x'], [],
+                             [b'esc \x1b[2J\x1b[H(gen) banner: SSH-2.0-Forged', b'caf\xc3\xa9 bell\x07 nul\x00x'], [b'\xff\xfe raw bytes', b'tab\there']]):
         for kexs, keys in ((['curve25519-sha256'], ['ssh-ed25519', 'rsa-sha2-512']), (['diffie-hellman-group-exchange-sha256', 'curve25519-sha256'], ['ssh-ed25519']), (['x-unknown-kex'], ['x-unknown-key'])):
             hdr_cases.append({'pre': pre, 'kex': kexs, 'key': keys})
     if q:
@@ -515,9 +516,10 @@ def run(ctx):
     with runner.Pool(8) as pool:
         hres = pool.map(do_hdr, hdr_cases)
     for c, r in zip(hdr_cases, hres):
-        want = [l.rstrip().decode() for l in c['pre'] if l.strip()]
+        # header lines are shown like the banner: everything outside printable ASCII replaced by '?'
+        want = [sanitise(l.rstrip().decode('utf-8', 'replace')) for l in c['pre'] if l.strip()]
         out = r['out']
-        replay = {'op': 'cli-header', 'pre': [l.decode() for l in c['pre']], 'kex': c['kex'], 'key': c['key'], 'connections': r['conns']}
+        replay = {'op': 'cli-header', 'pre': [l.decode('latin1') for l in c['pre']], 'kex': c['kex'], 'key': c['key'], 'connections': r['conns']}
         if '(gen) banner: SSH-2.0-OpenSSH_8.9' not in out:
             ctx.violation('report/header/no-banner', 'no banner line in the report of a peer sending %d lines before its identification string: %s' % (len(c['pre']), (out + r['err'])[-200:]), replay)
             continue
@@ -526,7 +528,9 @@ def run(ctx):
             blk = out.split('(gen) header: ', 1)[1].split('\n(gen) banner: ', 1)[0]
             got = blk.split('\n')
         nontriv.add(('cli-header', len(want), r['conns'] > 1))
-        if got != want:
+        if any(not printable(x) for x in got):
+            ctx.violation('report/header-not-printable', 'the header text of the report contains characters outside printable ASCII: %r' % (got[:4],), replay)
+        elif got != want:
             ctx.violation('report/header-text', 'the report shows %d header line(s) %r for a peer that sends %r before its identification string (the audit made %d connections)' % (len(got), got[:8], want, r['conns']), replay)
     hist['cli-header'] = len(hdr_cases)
     ctx.evaluations += len(hdr_cases)
